@@ -697,8 +697,8 @@ def directed_contended(ctx, txns, quick: bool, cap: int = 60):
         fixed = [(j, ng, 0) for j in range(0, na, step)]
         others = [c for c in combos if c not in fixed]
         combos = fixed + ctx.rng.sample(others, max(0, cap - len(fixed)))
-    elif len(combos) > 1500:
-        combos = ctx.rng.sample(combos, 1500)
+    elif len(combos) > 300:
+        combos = ctx.rng.sample(combos, 300)           # (thorough tier)
     for j, k, m in combos:
         # K: step 1 starts the clock actor, steps 2 and 3 perform the jumps
         seg = [("A0", i), ("K", 10**6), ("A1", 10**6), ("A0", j), ("G", k), ("A0", m), ("G", 10**6), ("A0", 10**6)]
@@ -910,7 +910,7 @@ def run(ctx) -> None:
         if quick and ti == 4:
             continue                                # (append + adopt together: thorough tier)
         _t0 = _time.time()
-        runs = list(explore(ctx, txns, 5000, 2 if quick else 3, (40 if ti < 2 else 25 if ti == 3 else 12 if ti < 5 else 4) if quick else 900 if ti < 5 else 300))
+        runs = list(explore(ctx, txns, 5000, 2 if quick else 3, (40 if ti < 2 else 25 if ti == 3 else 12 if ti < 5 else 4) if quick else 900 if ti < 5 else 150))
         if ti == 0 or not quick:
             runs += list(directed(ctx, txns, quick))
         elif ti == 3:
